@@ -41,7 +41,7 @@ TRUSTED_BASE = [
     "props/C16.py to_case(): numbering of nodes/handles of the monitor log, translation to Coq cases",
 ]
 
-FILES = ["vh_common_test.go", "vhgate_backend_test.go", "c16_workload_test.go", "c16_queued_test.go"]
+FILES = ["vh_common_test.go", "vhgate_backend_test.go", "vhread_probe_test.go", "c16_workload_test.go", "c16_queued_test.go"]
 HEADER = ("From Coq Require Import String List Bool NArith.\nFrom P9V Require Import Locks.Sym Locks.LockCases.\nImport ListNotations.\nOpen Scope string_scope.\nOpen Scope N_scope.\n")
 
 
@@ -134,7 +134,9 @@ def run(ctx):
     if rd and not rd[0]["answered"]:
         ctx.violation("C16:deadlock:rename-disconnect", "Trenameat was never answered (server-wide deadlock under renameMu.W): " + rd[0]["what"], rd[0])
     for o in pr:
-        if not o["answered"]:
+        if o.get("name") == "reads-after-eof-read" and not o["answered"]:
+            ctx.violation("C16:isolation:reads-after-eof-read", "a client did not observe the result it observes alone: " + o.get("detail", ""), o)
+        elif not o["answered"]:
             ctx.violation("C16:deadlock:%s" % o["name"], "requests were never answered (3 x 1.1 s): " + o["what"], o)
         elif o.get("unclosed", 0) > 0:
             ctx.violation("C16:leak:%s" % o["name"], "%d File(s) were never closed after the connection went away (references taken for a rename notification leaked): %s" % (o["unclosed"], o["what"]), o)
